@@ -34,7 +34,7 @@ def gen_input(rng: random.Random) -> Dict[str, Any]:
         n = rng.randint(1, 6)
         inp: Dict[str, Any] = {"constructor": "calibration", "type": rng.choice(["QUBIT", "QUTRIT"]), "qubits": rng.sample(range(0, 12), n)}
     else:
-        inp = libgen.gen_repcode_input(rng, max_distance=4, max_cycles=6)
+        inp = libgen.gen_repcode_input(rng, max_distance=4, max_cycles=6, custom_index_p=0.2)
         if rng.random() < 0.12:
             # directed: the longest sub-chains (several gates per layer) with exactly one gate edge excluded, simplified constructor
             # (gates and parks of a layer share one explicit relation there)
@@ -44,6 +44,7 @@ def gen_input(rng: random.Random) -> Dict[str, Any]:
             inp.update({"constructor": "simplified", "description": "connectivity", "layout": name, "involved": seg, "distance": (len(seg) + 1) // 2,
                         "data_state": [rng.randint(0, 1) for _ in range((len(seg) + 1) // 2)], "ancilla_state": None, "cycles": rng.randint(1, 3)})
             inp.pop("state_container", None)
+            inp.pop("index_map", None)
             comp = libgen.gen_composite(rng, inp)
             edges = comp.get("exclude_gate_edges") or []
             lay = libgen.layout(name)
